@@ -83,11 +83,18 @@ theorem pre_viewAddHead (r : Repo) (p : Pre r) (c : Nat) (hc : c < r.size) : Pre
 theorem viewAddHead_visible (r : Repo) (c : Nat) : (viewAddHead r c).isVisible c = true :=
   (isVisible_iff _ c).mpr ⟨c, (mem_setInsert c c r.heads).mpr (Or.inl rfl), by simp [Repo.isAnc]⟩
 
-theorem pre_addHead (r : Repo) (p : Pre r) (c : Nat) (hc0 : 0 < c) (hc : c < r.size) : Pre (addHead r c) := by
+/-- `add_head` of *any* indexed commit — the root included — keeps the transaction invariant: the
+incremental path is only taken for a commit with a parent (the guard in `add_heads`), which is all
+`normal_fastHeads` needs. -/
+theorem pre_addHead (r : Repo) (p : Pre r) (c : Nat) (hc : c < r.size) : Pre (addHead r c) := by
   unfold addHead
   dsimp only
   split
-  · rename_i hall
+  · rename_i hguard
+    have hguard' := Bool.and_eq_true_iff.mp hguard
+    have hall := hguard'.2
+    have hpne : r.parentsOf c ≠ [] := by
+      intro he; have h1 := hguard'.1; rw [he] at h1; simp at h1
     have hsub : ∀ q ∈ r.parentsOf c, q ∈ r.heads := by
       intro q hq; have := List.all_eq_true.mp hall q hq; simpa using this
     have hheads : (replaceHeads r c (r.parentsOf c)).heads = fastHeads r.heads c (r.parentsOf c) := rfl
@@ -101,7 +108,7 @@ theorem pre_addHead (r : Repo) (p : Pre r) (c : Nat) (hc0 : 0 < c) (hc : c < r.s
     · intro hflag
       rw [hheads]
       have hn := p.flag hflag
-      refine normal_fastHeads r.isAnc p.wf.po 0 r.heads c ?_ hn _ (p.wf.par_nonempty c hc0 hc) hsub
+      refine normal_fastHeads r.isAnc p.wf.po 0 r.heads c ?_ hn _ hpne hsub
         (p.wf.anc_parents c hc) (p.wf.parent_strict c hc)
       intro x hx
       rcases (mem_setInsert c x r.heads).mp hx with rfl | hx
@@ -158,7 +165,7 @@ theorem pre_newCommit (r : Repo) (p : Pre r) (ps : List Nat) (d : Bool) (hps : p
     (hrange : ∀ q ∈ ps, q < r.size) : Pre (newCommit r ps d).1 := by
   have p1 := pre_pushCommit r p ps d hps hrange
   have hsz := pushCommit_size r ps d
-  exact pre_addHead _ p1 r.size (p.wf.size_pos) (by rw [hsz]; omega)
+  exact pre_addHead _ p1 r.size (by rw [hsz]; omega)
 
 theorem newCommit_size (r : Repo) (ps : List Nat) (d : Bool) : (newCommit r ps d).1.size = r.size + 1 := by
   have : (newCommit r ps d).1.parents = (pushCommit r ps d).1.parents := by
@@ -260,19 +267,21 @@ theorem maybeAbandonWc_size (r : Repo) (ws : Nat) : (maybeAbandonWc r ws).size =
   · dsimp only
     split <;> (simp only [abandonCommit, recordRewrite, normalizeHeads, Repo.size]; split <;> rfl)
 
-theorem pre_edit (r : Repo) (p : Pre r) (ws c : Nat) (hc0 : 0 < c) (hc : c < r.size) : Pre (edit r ws c).1 := by
+/-- `edit` of any indexed commit; for the root commit `set_wc_commit` returns `Err` *after* the
+`add_head`, and the state it leaves behind still satisfies the invariant. -/
+theorem pre_edit (r : Repo) (p : Pre r) (ws c : Nat) (hc : c < r.size) : Pre (edit r ws c).1 := by
   unfold edit
   dsimp only
   have p1 := pre_maybeAbandonWc r p ws
   have hc1 : c < (maybeAbandonWc r ws).size := by rw [maybeAbandonWc_size]; exact hc
-  have p2 := pre_addHead _ p1 c hc0 hc1
+  have p2 := pre_addHead _ p1 c hc1
   exact pre_setWcCommit _ p2 ws c (Or.inr (addHead_visible _ p1 c hc1))
 
 theorem pre_checkOut (r : Repo) (p : Pre r) (ws c : Nat) (hc : c < r.size) : Pre (checkOut r ws c).1 := by
   unfold checkOut
   have p1 := pre_newCommit r p [c] true (by simp) (by simpa using hc)
   have hsz := newCommit_size r [c] true
-  exact pre_edit _ p1 ws r.size p.wf.size_pos (by rw [hsz]; omega)
+  exact pre_edit _ p1 ws r.size (by rw [hsz]; omega)
 
 theorem pre_removeWorkspace (r : Repo) (p : Pre r) (ws : Nat) : Pre (removeWorkspace r ws) := by
   unfold removeWorkspace
